@@ -197,12 +197,74 @@ Definition do_cmp (o : cmpop) (a b : val) (w : world) : res (bool * world) :=
          | Some x, Some y => match o with CLt => m_lt x y w | CLtE => m_le x y w | CGt => m_lt y x w | _ => m_le y x w end
          | _, _ => Exc "TypeError" end
   end.
+(* slices: a[lo:hi] reaches the interpreter as a[slice(lo, hi)]; the slice value is an object with two fields *)
+Definition mk_slice (lo hi : val) : val := VObj "<slice>" [("lo", lo); ("hi", hi)].
+Definition slice_parts (i : val) : option (val * val) :=
+  match i with
+  | VObj cls fs => if String.eqb cls "<slice>" then
+                     match field_get "lo" fs, field_get "hi" fs with Some lo, Some hi => Some (lo, hi) | _, _ => None end
+                   else None
+  | _ => None end.
+Definition slice_bounds (i : val) (n : nat) : option (nat * nat) :=     (* [start, stop) clipped to the length, non-negative bounds only *)
+  match slice_parts i with
+  | Some (lo, hi) =>
+      match (match lo with VNone => Some 0%nat | VInt z => if (z <? 0)%Z then None else Some (Nat.min (Z.to_nat z) n) | _ => None end),
+            (match hi with VNone => Some n | VInt z => if (z <? 0)%Z then None else Some (Nat.min (Z.to_nat z) n) | _ => None end) with
+      | Some a, Some b => Some (a, b)
+      | _, _ => None end
+  | None => None
+  end.
+Definition is_full_slice (i : val) : bool := match slice_parts i with Some (VNone, VNone) => true | _ => false end.
+Definition seq_payload (v : val) : option (list val) := match v with VList l | VArr l | VTuple l => Some l | _ => None end.
+Fixpoint col_get (rows : list val) (j : nat) : res (list val) :=
+  match rows with
+  | [] => Ok []
+  | r :: t => match seq_payload r with
+              | Some l => match nth_error l j with Some v => do rest <- col_get t j; Ok (v :: rest) | None => Exc "IndexError" end
+              | None => Exc "IndexError" end
+  end.
+Fixpoint list_set_total (l : list val) (n : nat) (v : val) : option (list val) :=
+  match l, n with
+  | _ :: t, O => Some (v :: t)
+  | h :: t, S m => match list_set_total t m v with Some t' => Some (h :: t') | None => None end
+  | [], _ => None
+  end.
+Fixpoint col_set (rows : list val) (j : nat) (col : list val) : res (list val) :=
+  match rows, col with
+  | [], [] => Ok []
+  | r :: t, v :: cv =>
+      match r with
+      | VArr l => match list_set_total l j v with Some l' => do rest <- col_set t j cv; Ok (VArr l' :: rest) | None => Exc "IndexError" end
+      | VList l => match list_set_total l j v with Some l' => do rest <- col_set t j cv; Ok (VList l' :: rest) | None => Exc "IndexError" end
+      | _ => Exc "IndexError" end
+  | _, _ => Exc "ValueError"
+  end.
+Definition retag (like : val) (l : list val) : val := match like with VArr _ => VArr l | VTuple _ => VTuple l | _ => VList l end.
 Definition subscript (c i : val) : res val :=
   match c, i with
   | VList l, VInt z | VTuple l, VInt z | VArr l, VInt z =>
-      if (z <? 0)%Z then Stuck "negative index"
+      if (z <? 0)%Z then
+        (if (z =? -1)%Z then match l with [] => Exc "IndexError" | x :: r => Ok (last r x) end else Stuck "negative index")
       else match nth_error l (Z.to_nat z) with Some v => Ok v | None => Exc "IndexError" end
   | VDict d, k => match dict_get k d with Some v => Ok v | None => Exc "KeyError" end
+  | VArr rows, VTuple [a; VInt z] =>                         (* 2-d array: m[:, j]  and  m[i, j] *)
+      if (z <? 0)%Z then Stuck "negative index"
+      else if is_full_slice a then do cl <- col_get rows (Z.to_nat z); Ok (VArr cl)
+      else match a with
+           | VInt y => if (y <? 0)%Z then Stuck "negative index"
+                       else match nth_error rows (Z.to_nat y) with
+                            | Some r => match seq_payload r with
+                                        | Some l => match nth_error l (Z.to_nat z) with Some v => Ok v | None => Exc "IndexError" end
+                                        | None => Exc "IndexError" end
+                            | None => Exc "IndexError" end
+           | _ => Stuck "subscript" end
+  | VObj _ _, _ => Stuck "subscript"
+  | _, VObj _ _ =>                                            (* 1-d slice a[lo:hi] *)
+      match seq_payload c with
+      | Some l => match slice_bounds i (length l) with
+                  | Some (a, b) => Ok (retag c (firstn (b - a) (skipn a l)))
+                  | None => Stuck "slice" end
+      | None => Stuck "subscript" end
   | _, _ => Stuck "subscript"
   end.
 Fixpoint list_set (l : list val) (n : nat) (v : val) : option (list val) :=
@@ -216,6 +278,13 @@ Definition set_item (c i v : val) : res val :=
   | VList l, VInt z => match list_set l (Z.to_nat z) v with Some l' => Ok (VList l') | None => Exc "IndexError" end
   | VArr l, VInt z => match list_set l (Z.to_nat z) v with Some l' => Ok (VArr l') | None => Exc "IndexError" end
   | VDict d, k => Ok (VDict (dict_set k v d))
+  | VArr rows, VTuple [a; VInt z] =>                         (* m[:, j] = column *)
+      if (z <? 0)%Z then Stuck "negative index"
+      else if is_full_slice a then
+        match seq_payload v with
+        | Some cv => do rows' <- col_set rows (Z.to_nat z) cv; Ok (VArr rows')
+        | None => Stuck "set_item: column value" end
+      else Stuck "set_item"
   | _, _ => Stuck "set_item"
   end.
 
@@ -256,6 +325,7 @@ Definition fold_num (f : R -> R -> R) (l : list val) : res val :=
   end.
 Definition builtin (name : string) (args : list val) (kws : list (string * val)) (w : world) : option (res (val * world)) :=
   match name with
+  | "slice" => Some (pure_ (match args with [lo; hi] => Ok (mk_slice lo hi) | _ => Stuck "slice arity" end) w)
   | "np.maximum" => Some (match args with [a; b] => pure2 xmax a b w | _ => Exc "TypeError" end)
   | "np.log10" => Some (num1m (m_log true) args w)
   | "np.log" => Some (num1m (m_log false) args w)
